@@ -65,6 +65,8 @@ def field_store(oa, st, field):
             root = root.value
         if isinstance(root, ast.Name) and root.id == oa.ret_var:
             return t, st.value
+        if isinstance(root, ast.Name) and root is t.value and field in ("chi2", "rel_diff") and root.id not in ("self",):
+            return t, st.value      # a local alias of an IterationResult object (decided by its R_* tags)
     return None
 
 
@@ -91,19 +93,21 @@ def rules_T1(oa):
                        "final_chi2 is assigned from `%s`, which does not hold chi^2 of the current poses at that point (tags: %s)" % (
                            unp(fs[1]), sorted(oa.tags_of(s, fs[1])) or "none"), st)
         fs = field_store(oa, st, "chi2")
-        if fs and isinstance(fs[0].value, ast.Subscript):
+        if fs and (isinstance(fs[0].value, ast.Subscript) or isinstance(fs[0].value, ast.Name)):
+            obj = fs[0].value
+            okey = oa.var_key(obj)
+            states = oa.states_at(n)
+            if isinstance(obj, ast.Name) and not any(t.startswith("R_") for s in states for v, t in s.tags if v == okey):
+                continue     # not an IterationResult object
             n_iter += 1
-            idx = fs[0].value.slice
-            k = None
-            if isinstance(idx, ast.UnaryOp) and isinstance(idx.op, ast.USub) and isinstance(idx.operand, ast.Constant):
-                k = -idx.operand.value
-            for s in oa.states_at(n):
+            for s in states:
                 oa.add("C12-T1/iteration.chi2@%s/value" % s.phase, "C12-T1-report-fresh", "CUR" in oa.tags_of(s, fs[1]),
                        "iteration chi2 is assigned from `%s`, which does not hold chi^2 of the current poses there" % unp(fs[1]), st)
-                ok = k is not None and s.since in (0, 1) and k == -(1 + s.since) and not s.pristine
+                otags = {t for v, t in s.tags if v == okey} if okey is not None else set()
+                ok = "R_SWEPT" in otags and not s.pristine
                 oa.add("C12-T1/iteration.chi2@%s/slot" % s.phase, "C12-T1-report-fresh", ok,
-                       "iteration_results[%s].chi2 is written when %s result object(s) were appended since the last pose update "
-                       "(pristine=%s): that slot is not the iteration whose update produced the current poses" % (unp(idx), s.since, s.pristine), st)
+                       "`%s.chi2` is written, but `%s` is not the result object of the iteration whose update produced the current poses "
+                       "(object state: %s, pristine=%s)" % (unp(obj), unp(obj), sorted(otags) or "unknown", s.pristine), st)
     if n_init < 1 or n_final < 1 or n_iter < 1:
         raise AnalysisError("anchor vanished: stores to initial_chi2/final_chi2/iteration chi2: %d/%d/%d" % (n_init, n_final, n_iter))
     # at every return: final_chi2 still current, initial_chi2 set from the entry state
@@ -263,6 +267,12 @@ def rules_T4(oa):
                     all(pure_print_arg(k.value) for k in b.value.keywords)
                 if isinstance(b, ast.Pass):
                     ok = True
+                if not ok and isinstance(b, ast.Assign) and all(isinstance(t, ast.Name) for t in b.targets) and pure_print_arg(b.value):
+                    # a temporary that lives only inside this verbose block
+                    names = {t.id for t in b.targets}
+                    inside = {id(x) for y in st.body + st.orelse for x in ast.walk(y)}
+                    used_outside = any(isinstance(x, ast.Name) and x.id in names and id(x) not in inside for x in ast.walk(fn))
+                    ok = not used_outside
                 if not ok and isinstance(b, ast.Expr) and isinstance(b.value, ast.Call):
                     # a helper that has no effect on any state (it only formats / prints)
                     facts = oa.an.get(fn)
@@ -337,7 +347,9 @@ def rules_fixed(oa):
     pkg, fn, cfg = oa.pkg, oa.fn, oa.cfg
     # C06-a who may write `.fixed`
     n_fixed = 0
-    for q, f in oa.an.fns.items():
+    for q, f in list(oa.an.fns.items()):
+        if f is oa.fn_orig or f in oa.inlined:
+            continue   # analysed as part of the inlined body of optimize()
         facts = oa.an.get(f)
         for ev in facts.events:
             if ev.kind == "AttrStore" and last_attr(ev.path) == "fixed":
